@@ -11,6 +11,10 @@ Oracle: every yielded header -> minimal stream (sequence header + end of sequenc
 under the configured level: accepted, decoded video parameters / picture coding mode equal to the
 configured ones.  For the levels whose data-unit pattern does not admit a picture-less sequence
 (64, 65, 66) the header is parsed by the validator's own parse_info + sequence_header functions.
+
+Addition (end of file, `accept_pass`): the validator's VERDICT on a sequence header -- the class of the
+first failing check of decoder/sequence_header.py -- against Model/SeqHeaderAccept.v `header_check`, on
+generated headers of valid and deliberately invalid targets and on mutated descriptions.
 """
 import copy
 import io
@@ -588,9 +592,13 @@ def run(ctx):
                        "subsampling) is a generator filter = hypothesis of the property")
     ctx.trusted.append("vc2_data_tables contents and LEVEL_CONSTRAINTS are dumped from the live modules into the case files; "
                        "the theorems hold for arbitrary tables")
+    # ---- addition (c15b): the validator's verdict, see the end of this file
+    accept_pass(ctx, I, specs)
 
 
 def replay(ctx, data):
+    if data["input"].get("accept_case"):  # addition (c15b)
+        return replay_accept(ctx, data)
     I = impl()
     spec = data["input"]
     print("replaying", data.get("key"), spec)
@@ -617,3 +625,390 @@ def replay(ctx, data):
 def digest_conf(obj):
     import vlib
     return vlib.digest(obj)
+
+
+# =========================================================================================
+# ==== ADDITION (c15b): the validator's verdict on a sequence header ("is accepted") =========
+# =========================================================================================
+# Correspondence for Model/SeqHeaderAccept.v: `header_check T15 E15 (level_ok TBL) major minor h`
+# (the ordered list of the validator's checks, level checks included) against the REAL
+# decoder.sequence_header run on the serialised header, for
+#   * headers of VALID targets (sample of the configurations above, the level ones included),
+#   * headers the encoder enumerates for deliberately INVALID targets (zero sizes, clean area too
+#     large, odd sizes with 4:2:0 / 4:2:2 / fields, zero frame-rate / aspect-ratio parts, zero
+#     excursions, out-of-enum colour-difference / scan / primaries / matrix / transfer function),
+#   * MUTATED descriptions (out-of-enum preset indices, base video format, picture coding mode,
+#     profile, level, zero values, wrong versions) and FORCED major versions.
+# The verdicts must agree in the CLASS of the first failing check (ValueNotAllowedInLevel: also
+# the key; BadCustomSignalExcursion: also the component).  A non-ConformanceError exception of
+# the real code is reported as a violation.  Per configuration, the model's `format_valid` is
+# compared with what happened: format_valid -> every header accepted (the statement of
+# C15_headers_accepted_partial on the implementation).
+
+ACCEPT_CLASSES = set("""MajorVersionTooLow MinorVersionNotZero BadProfile ProfileNotSupportedByVersion BadLevel
+BadBaseVideoFormat ZeroPixelFrameSize BadColorDifferenceSamplingFormat BadSourceSamplingMode
+FrameRateHasZeroDenominator FrameRateHasZeroNumerator BadPresetFrameRateIndex PresetFrameRateNotSupportedByVersion
+PixelAspectRatioContainsZeros BadPresetPixelAspectRatio CleanAreaOutOfRange BadPresetSignalRange
+PresetSignalRangeNotSupportedByVersion BadPresetColorSpec PresetColorSpecNotSupportedByVersion
+BadPresetColorPrimaries PresetColorPrimariesNotSupportedByVersion BadPresetColorMatrix
+PresetColorMatrixNotSupportedByVersion BadPresetTransferFunction PresetTransferFunctionNotSupportedByVersion
+BadPictureCodingMode PictureDimensionsNotMultipleOfFrameDimensions""".split())
+
+
+def c_enums(I):
+    t = I.t
+    ens = [t.Profiles, t.Levels, t.BaseVideoFormats, t.PictureCodingModes, t.ColorDifferenceSamplingFormats,
+           t.SourceSamplingModes, t.PresetFrameRates, t.PresetPixelAspectRatios, t.PresetSignalRanges,
+           t.PresetColorSpecs, t.PresetColorPrimaries, t.PresetColorMatrices, t.PresetTransferFunctions]
+    return "(mkEnums %s)" % " ".join(clist([int(x) for x in en]) for en in ens)
+
+
+def accept_defs(I):
+    return table_defs(I) + "Definition E15 : enums := %s.\n" % c_enums(I)
+
+
+def c_verdict(verdict, exc):
+    """Real verdict -> Coq `verdict` literal (None: a class the model does not have)."""
+    if verdict == "accept":
+        return "Accept"
+    kind, cls = verdict.split(":", 1)
+    if kind == "crash":
+        return "(Reject E_KeyError)" if cls == "KeyError" else None
+    if cls == "ValueNotAllowedInLevel":
+        return "(RejectLevel K_%s)" % exc.key if exc.key in KEY_ID else None
+    if cls == "BadCustomSignalExcursion":
+        return "(Reject E_BadCustomSignalExcursion_%s)" % exc.component_type_name
+    return "(Reject E_%s)" % cls if cls in ACCEPT_CLASSES else None
+
+
+def _mutations(I):
+    b = I.bs
+
+    def sp(h):
+        return h["video_parameters"]
+
+    def pp(h):
+        return h["parse_parameters"]
+
+    def cspec(p=None, m=None, tf=None):
+        def f(h):
+            sp(h)["color_spec"] = b.ColorSpec(
+                custom_color_spec_flag=True, index=0,
+                color_primaries=b.ColorPrimaries(custom_color_primaries_flag=p is not None, **({"index": p} if p is not None else {})),
+                color_matrix=b.ColorMatrix(custom_color_matrix_flag=m is not None, **({"index": m} if m is not None else {})),
+                transfer_function=b.TransferFunction(custom_transfer_function_flag=tf is not None, **({"index": tf} if tf is not None else {})))
+        return f
+
+    def setf(field, value):
+        return lambda h: sp(h).__setitem__(field, value)
+
+    return [
+        ("base_video_format=99", lambda h: h.__setitem__("base_video_format", 99)),
+        ("base_video_format=23", lambda h: h.__setitem__("base_video_format", 23)),
+        ("picture_coding_mode=2", lambda h: h.__setitem__("picture_coding_mode", 2)),
+        ("picture_coding_mode=flip", lambda h: h.__setitem__("picture_coding_mode", 1 - int(h["picture_coding_mode"]))),
+        ("profile=2", lambda h: pp(h).__setitem__("profile", 2)),
+        ("profile=flip", lambda h: pp(h).__setitem__("profile", 3 - int(pp(h)["profile"]))),
+        ("level=99", lambda h: pp(h).__setitem__("level", 99)),
+        ("level=8", lambda h: pp(h).__setitem__("level", 8)),
+        ("major_version=0", lambda h: pp(h).__setitem__("major_version", 0)),
+        ("minor_version=1", lambda h: pp(h).__setitem__("minor_version", 1)),
+        ("frame_size=0x5", setf("frame_size", b.FrameSize(custom_dimensions_flag=True, frame_width=0, frame_height=5))),
+        ("frame_size=5x0", setf("frame_size", b.FrameSize(custom_dimensions_flag=True, frame_width=5, frame_height=0))),
+        ("frame_size=2x2", setf("frame_size", b.FrameSize(custom_dimensions_flag=True, frame_width=2, frame_height=2))),
+        ("frame_size=3x3", setf("frame_size", b.FrameSize(custom_dimensions_flag=True, frame_width=3, frame_height=3))),
+        ("frame_size=1x1", setf("frame_size", b.FrameSize(custom_dimensions_flag=True, frame_width=1, frame_height=1))),
+        ("cdf=3", setf("color_diff_sampling_format", b.ColorDiffSamplingFormat(custom_color_diff_format_flag=True, color_diff_format_index=3))),
+        ("cdf=2", setf("color_diff_sampling_format", b.ColorDiffSamplingFormat(custom_color_diff_format_flag=True, color_diff_format_index=2))),
+        ("scan=2", setf("scan_format", b.ScanFormat(custom_scan_format_flag=True, source_sampling=2))),
+        ("frame_rate_index=99", setf("frame_rate", b.FrameRate(custom_frame_rate_flag=True, index=99))),
+        ("frame_rate_index=15", setf("frame_rate", b.FrameRate(custom_frame_rate_flag=True, index=15))),
+        ("frame_rate_index=12", setf("frame_rate", b.FrameRate(custom_frame_rate_flag=True, index=12))),
+        ("frame_rate=0/1", setf("frame_rate", b.FrameRate(custom_frame_rate_flag=True, index=0, frame_rate_numer=0, frame_rate_denom=1))),
+        ("frame_rate=1/0", setf("frame_rate", b.FrameRate(custom_frame_rate_flag=True, index=0, frame_rate_numer=1, frame_rate_denom=0))),
+        ("frame_rate=0/0", setf("frame_rate", b.FrameRate(custom_frame_rate_flag=True, index=0, frame_rate_numer=0, frame_rate_denom=0))),
+        ("par_index=7", setf("pixel_aspect_ratio", b.PixelAspectRatio(custom_pixel_aspect_ratio_flag=True, index=7))),
+        ("par=0/1", setf("pixel_aspect_ratio", b.PixelAspectRatio(custom_pixel_aspect_ratio_flag=True, index=0, pixel_aspect_ratio_numer=0, pixel_aspect_ratio_denom=1))),
+        ("par=1/0", setf("pixel_aspect_ratio", b.PixelAspectRatio(custom_pixel_aspect_ratio_flag=True, index=0, pixel_aspect_ratio_numer=1, pixel_aspect_ratio_denom=0))),
+        ("clean=huge", setf("clean_area", b.CleanArea(custom_clean_area_flag=True, clean_width=1 << 20, clean_height=1, left_offset=0, top_offset=0))),
+        ("clean=offset", setf("clean_area", b.CleanArea(custom_clean_area_flag=True, clean_width=1, clean_height=1, left_offset=0, top_offset=1 << 20))),
+        ("clean=1x1", setf("clean_area", b.CleanArea(custom_clean_area_flag=True, clean_width=1, clean_height=1, left_offset=0, top_offset=0))),
+        ("signal_index=9", setf("signal_range", b.SignalRange(custom_signal_range_flag=True, index=9))),
+        ("signal_index=5", setf("signal_range", b.SignalRange(custom_signal_range_flag=True, index=5))),
+        ("signal=luma_exc0", setf("signal_range", b.SignalRange(custom_signal_range_flag=True, index=0, luma_offset=0, luma_excursion=0, color_diff_offset=0, color_diff_excursion=255))),
+        ("signal=cd_exc0", setf("signal_range", b.SignalRange(custom_signal_range_flag=True, index=0, luma_offset=0, luma_excursion=255, color_diff_offset=0, color_diff_excursion=0))),
+        ("signal=both_exc0", setf("signal_range", b.SignalRange(custom_signal_range_flag=True, index=0, luma_offset=0, luma_excursion=0, color_diff_offset=0, color_diff_excursion=0))),
+        ("color_spec_index=9", setf("color_spec", b.ColorSpec(custom_color_spec_flag=True, index=9))),
+        ("color_spec_index=5", setf("color_spec", b.ColorSpec(custom_color_spec_flag=True, index=5))),
+        ("primaries=9", cspec(p=9)), ("primaries=4", cspec(p=4)),
+        ("matrix=9", cspec(m=9)), ("matrix=4", cspec(m=4)),
+        ("tf=9", cspec(tf=9)), ("tf=4", cspec(tf=4)),
+        ("color=all_bad", cspec(p=9, m=9, tf=9)),
+    ]
+
+
+_MUTS = None
+
+
+def mutations(I):
+    global _MUTS
+    if _MUTS is None:
+        _MUTS = OrderedDict(_mutations(I))
+    return _MUTS
+
+
+def accept_one(I, h, mutation=None, force_major=None):
+    """(coq case or None, real verdict string, exception, major, minor) for one header description."""
+    h = copy.deepcopy(h)
+    if mutation is not None:
+        mutations(I)[mutation](h)
+    if force_major is not None and "major_version" not in h["parse_parameters"]:
+        h["parse_parameters"]["major_version"] = force_major
+    data = I.common.serialise([header_stream(I, copy.deepcopy(h))])
+    verdict, exc, vp, state = header_only(I, data)
+    major, minor = int(state.get("major_version", 0)), int(state.get("minor_version", 0))
+    cv = c_verdict(verdict, exc)
+    hh = copy.deepcopy(h)
+    for k in ("major_version", "minor_version"):
+        hh["parse_parameters"].pop(k, None)
+    case = None if cv is None else "(%s, (%s, %s), %s)" % (c_header(hh), cz(major), cz(minor), cv)
+    return case, verdict, exc, major, minor
+
+
+def run_accept(args):
+    """Worker: one configuration (valid or not) -> observations of the real validator on some headers."""
+    spec, kind, seed, nper = args
+    import random
+    rng = random.Random(seed)
+    I = impl()
+    res = {"spec": spec, "kind": kind, "obs": [], "skipped": 0, "error": None, "all_accept": None, "n_headers": 0}
+    try:
+        import itertools
+        cf = make_cf(I, spec)
+        headers = list(itertools.islice(I.esh.iter_sequence_headers(cf), 400))
+    except Exception as e:
+        res["error"] = "%s: %s" % (type(e).__name__, e)
+        return res
+    n = len(headers)
+    res["n_headers"] = n
+    if n == 0:
+        return res
+    pick = sorted(set([0, n - 1, n // 2] + [rng.randrange(n) for _ in range(max(0, nper - 3))]))[:nper]
+    plain = []
+    for i in pick:
+        variants = [(None, None)]
+        if kind != "invalid":
+            variants.append((None, rng.choice([1, 2, 3])))
+        names = list(mutations(I))
+        variants.append((rng.choice(names), None))
+        if kind == "mutate":
+            variants += [(m, None) for m in rng.sample(names, 3)]
+            variants.append((rng.choice(names), rng.choice([1, 2, 3])))
+        for mut, fm in variants:
+            try:
+                case, verdict, exc, major, minor = accept_one(I, headers[i], mut, fm)
+            except Unrepresentable:
+                res["skipped"] += 1
+                continue
+            except Exception as e:  # the serialiser refused the description
+                res["skipped"] += 1
+                continue
+            if mut is None and fm is None:
+                plain.append(verdict)
+            res["obs"].append({"index": i, "mutation": mut, "force_major": fm, "verdict": verdict,
+                               "what": (str(exc).split("\n")[0][:160] if exc is not None else ""),
+                               "case": case, "major": major})
+    res["all_accept"] = all(v == "accept" for v in plain)
+    return res
+
+
+def gen_invalid_formats(I, ctx):
+    """[(spec, what)]: deliberately invalid targets (and a few unusual valid ones) near some base formats."""
+    t, rng = I.t, ctx.rng
+    out = []
+    bvfs = list(t.BaseVideoFormats)
+    chosen = bvfs if not ctx.quick else rng.sample(bvfs, 6)
+
+    def add(base, what, pcm, **chg):
+        v = list(base)
+        for k, x in chg.items():
+            v[VP_KEYS.index(k)] = x
+        out.append(({"vp": v, "pcm": pcm, "near": 0}, what))
+
+    for bvf in chosen:
+        base = flat(I.set_source_defaults(bvf))
+        w, h = base[0], base[1]
+        for pcm in (0, 1):
+            add(base, "zero-width", pcm, frame_width=0, clean_width=0)
+            add(base, "zero-height", pcm, frame_height=0, clean_height=0)
+            add(base, "zero-size", pcm, frame_width=0, frame_height=0, clean_width=0, clean_height=0)
+            add(base, "clean-too-wide", pcm, clean_width=w + 1)
+            add(base, "clean-too-tall", pcm, clean_height=h + rng.randint(1, 9))
+            add(base, "clean-offset", pcm, left_offset=rng.randint(1, 5), top_offset=rng.choice([0, 3]))
+            add(base, "clean-inside", pcm, clean_width=w - 2, clean_height=h - 2, left_offset=2, top_offset=rng.choice([0, 2]))
+            for cdf in (0, 1, 2):
+                for fw, fh in [(1, 1), (2, 1), (1, 2), (2, 2), (3, 3), (2, 3), (3, 2), (4, 2), (2, 4), (4, 4), (5, 6), (6, 5),
+                               (w + 1, h), (w, h + 1), (w + 1, h + 1), (w, h + 2)]:
+                    if rng.random() < (0.25 if ctx.quick else 0.7):
+                        add(base, "small/odd-size", pcm, frame_width=fw, frame_height=fh, color_diff_format_index=cdf,
+                            clean_width=fw, clean_height=fh, left_offset=0, top_offset=0)
+        pcm = rng.randint(0, 1)
+        add(base, "zero-frame-rate-denom", pcm, frame_rate_denom=0)
+        add(base, "zero-frame-rate-numer", pcm, frame_rate_numer=0)
+        add(base, "zero-frame-rate", pcm, frame_rate_numer=0, frame_rate_denom=0)
+        add(base, "zero-par-numer", pcm, pixel_aspect_ratio_numer=0)
+        add(base, "zero-par-denom", pcm, pixel_aspect_ratio_denom=0)
+        add(base, "zero-luma-excursion", pcm, luma_excursion=0)
+        add(base, "zero-color-diff-excursion", pcm, color_diff_excursion=0)
+        add(base, "zero-excursions", pcm, luma_excursion=0, color_diff_excursion=0)
+        add(base, "zero-offsets", pcm, luma_offset=0, color_diff_offset=0)
+        def beyond(en):
+            return max(int(x) for x in en) + rng.choice([1, 5])
+        add(base, "cdf-out-of-enum", pcm, color_diff_format_index=beyond(t.ColorDifferenceSamplingFormats))
+        add(base, "scan-out-of-enum", pcm, source_sampling=beyond(t.SourceSamplingModes))
+        add(base, "primaries-out-of-enum", pcm, color_primaries_index=beyond(t.PresetColorPrimaries))
+        add(base, "matrix-out-of-enum", pcm, color_matrix_index=beyond(t.PresetColorMatrices))
+        add(base, "tf-out-of-enum", pcm, transfer_function_index=beyond(t.PresetTransferFunctions))
+    return out
+
+
+def accept_pass(ctx, I, specs):
+    t = I.t
+    # the literals of Model/SeqHeaderAccept.v
+    consts_ok = (int(t.ColorDifferenceSamplingFormats.color_4_2_2) == 1 and int(t.ColorDifferenceSamplingFormats.color_4_2_0) == 2
+                 and int(t.PictureCodingModes.pictures_are_fields) == 1 and int(t.Profiles.high_quality) == 3
+                 and all(int(l) in I.lc.LEVEL_SEQUENCE_RESTRICTIONS for l in t.Levels))
+    ctx.obligation("corr:accept-enum-literals (color_4_2_2=1, color_4_2_0=2, pictures_are_fields=1, every level has a sequence restriction)",
+                   consts_ok, "corr-shard", "checked on the live vc2_data_tables")
+    cover = ctx.coq_eval("accept_cover", ["Model.SeqHeader", "Model.SeqHeaderAccept", "Corr.C15"], "enums_cover T15 E15", defs=accept_defs(I))
+    ctx.obligation("corr:enums_cover holds of the live tables / enumerations (hypothesis of C15_headers_accepted_partial)",
+                   cover is not None and cover.strip() == "true", "corr-shard", "enums_cover T15 E15 = %s" % cover)
+    rng = ctx.rng
+    valid = [s for s, b in specs if not b.startswith("level-")]
+    lvl = [s for s, b in specs if b.startswith("level-")]
+    jobs = []
+    for s in rng.sample(valid, min(len(valid), ctx.pick(120, 2500))):
+        jobs.append((s, "valid", rng.getrandbits(32), ctx.pick(4, 8)))
+    for s in rng.sample(lvl, min(len(lvl), ctx.pick(50, 400))):
+        jobs.append((s, "level", rng.getrandbits(32), ctx.pick(4, 8)))
+    for s in rng.sample(valid, min(len(valid), ctx.pick(50, 500))) + rng.sample(lvl, min(len(lvl), ctx.pick(12, 100))):
+        jobs.append((s, "mutate", rng.getrandbits(32), ctx.pick(4, 8)))
+    inv = gen_invalid_formats(I, ctx)
+    for s, what in inv:
+        jobs.append((dict(s, what=what), "invalid", rng.getrandbits(32), ctx.pick(3, 6)))
+    t0 = time.time()
+    with multiprocessing.Pool(min(14, os.cpu_count() or 2)) as pool:
+        results = pool.map(run_accept, jobs, chunksize=8)
+    ctx.note("acceptance pass: %d configurations (%d deliberately invalid), implementation runs %.1f s" % (len(jobs), len(inv), time.time() - t0))
+    cases, meta, fv_cases, fv_meta = [], [], [], []
+    hist, skipped, rejected = {}, 0, 0
+    for res in results:
+        spec, kind = res["spec"], res["kind"]
+        if res["error"]:
+            if kind != "invalid":
+                ctx.violation("iter_sequence_headers-raises", spec, "enumerating the headers failed: " + res["error"])
+            else:
+                ctx.count(1, key=None, bucket="accept:invalid-target-refused-by-encoder")
+            continue
+        skipped += res["skipped"]
+        for o in res["obs"]:
+            inp = dict(spec, accept_case=True, header_index=o["index"], mutation=o["mutation"], force_major=o["force_major"])
+            bucket = "accept:" + ("mutated" if o["mutation"] else "forced-version" if o["force_major"] else kind)
+            ctx.count(1, key=("acc", tuple(spec["vp"]), spec["pcm"], spec.get("level", 0), o["index"], o["mutation"], o["force_major"]),
+                      bucket=bucket)
+            cls = o["verdict"].split(":")[-1]
+            hist[cls] = hist.get(cls, 0) + 1
+            if o["verdict"] != "accept":
+                rejected += 1
+            if o["verdict"].startswith("crash:"):
+                ctx.violation("validator-crash:" + cls, inp,
+                              "the validator's sequence_header raised a non-ConformanceError exception: %s %s" % (cls, o["what"]),
+                              observed=o["verdict"], expected="accept or a ConformanceError")
+            if o["case"] is None:
+                if not o["verdict"].startswith("crash:"):
+                    ctx.obligation("corr:accept-unmodelled-class:" + cls, False, "corr-shard", "%r -> %s %s" % (inp, o["verdict"], o["what"]))
+                continue
+            cases.append(o["case"])
+            meta.append((inp, o["verdict"], o["what"]))
+        if kind in ("valid", "invalid") and spec.get("level", 0) == 0 and res["all_accept"] is not None and res["n_headers"]:
+            fv_cases.append("(%s, %s, %s)" % (clist(spec["vp"]), cz(spec["pcm"]), "true" if res["all_accept"] else "false"))
+            fv_meta.append((spec, res["all_accept"]))
+    ctx.note("acceptance pass: %d header observations (%d rejected by the real validator, %d descriptions the serialiser refused); real verdict classes: %s"
+             % (len(cases), rejected, skipped, ", ".join("%s x%d" % kv for kv in sorted(hist.items()))))
+    ctx.extra["accept_observations"] = len(cases)
+    ctx.extra["accept_verdict_classes"] = hist
+    for m in meta[:1] + [m for m in meta if m[1] != "accept"][:2]:
+        ctx.sample({"accept_case": m[0], "real_verdict": m[1]})
+    imports = ["Model.SeqHeader", "Model.SeqHeaderAccept", "Corr.C15"]
+    t1 = time.time()
+    bad = ctx.coq_check_cases(
+        "seqhdr_accept", imports,
+        "(fun c : header * (Z * Z) * verdict => let '(h, (ma, mi), v) := c in "
+        "verdict_eqb (header_check T15 E15 (level_ok (table_of TBL)) ma mi h) v)",
+        cases, ty="header * (Z * Z) * verdict", shard=900, defs=accept_defs(I))
+    ctx.note("acceptance pass: Coq evaluation of %d cases %.1f s" % (len(cases), time.time() - t1))
+    for n, i in enumerate(bad or []):
+        inp, verdict, what = meta[i]
+        mv = "(not evaluated)"
+        if n < 4:  # what the model says, for the first few mismatches only (one coqc run each)
+            mv = ctx.coq_eval("accept_mismatch_%d" % n, imports,
+                              "let '(h, (ma, mi), v) := (%s : header * (Z * Z) * verdict) in header_check T15 E15 (level_ok (table_of TBL)) ma mi h" % cases[i],
+                              defs=accept_defs(I))
+        elif n >= 40:
+            ctx.note("acceptance pass: %d further mismatches not itemised" % (len(bad) - n))
+            break
+        plain = not inp["mutation"] and not inp["force_major"] and format_valid(inp["vp"], inp["pcm"])
+        if plain and verdict != "accept" and not (verdict.endswith("ValueNotAllowedInLevel") and "major_version" in what):
+            ctx.violation("header-rejected:" + verdict.split(":")[-1], inp,
+                          "the real validator rejects a generated header the model accepts: %s %s" % (verdict, what),
+                          observed=verdict, expected="accept")
+        else:
+            ctx.obligation("corr:header_check agrees with decoder.sequence_header", False, "corr-shard",
+                           "input %r: implementation %s (%s), model %s" % (inp, verdict, what, mv))
+    # format_valid (model, on the configuration only) -> every header accepted by the real validator
+    badfv = ctx.coq_check_cases(
+        "seqhdr_format_valid", imports,
+        "(fun c : list Z * Z * bool => let '(t, pcm, acc) := c in implb (format_valid E15 (vp_of_flat t) pcm) acc)",
+        fv_cases, ty="list Z * Z * bool", shard=3000, defs=accept_defs(I))
+    for i in (badfv or []):
+        spec, _ = fv_meta[i]
+        ctx.violation("valid-format-header-rejected", dict(spec, accept_case=True, header_index=None, mutation=None, force_major=None),
+                      "format_valid holds of the target but the real validator rejects one of its generated headers",
+                      observed="rejected", expected="accept")
+    conv = ctx.coq_eval("accept_fv_converse", imports,
+                        "List.length (filter (fun c : list Z * Z * bool => let '(t, pcm, acc) := c in negb (format_valid E15 (vp_of_flat t) pcm) && acc) fvc)",
+                        defs=accept_defs(I) + "Definition fvc : list (list Z * Z * bool) := [%s]%%list.\n" % ";\n".join(fv_cases)) if fv_cases else "0"
+    ctx.note("format_valid vs. the real validator on %d level-0 configurations: %d with every sampled header accepted; "
+             "configurations NOT format_valid yet with every sampled header accepted: %s"
+             % (len(fv_cases), sum(1 for _, a in fv_meta if a), conv))
+    ctx.extra["rule"] += (
+        " ACCEPTANCE PASS: for a sample of these configurations, for the level ones, and for deliberately invalid targets (zero "
+        "sizes, clean area outside the frame, small/odd sizes x every colour difference format x both coding modes, zero frame "
+        "rate / aspect ratio parts, zero excursions, out-of-enum enum-typed entries) a few enumerated headers each are run "
+        "through the real decoder.sequence_header as generated, with a forced major_version, and with one mutation of the "
+        "description (out-of-enum indices, zero values, wrong versions/profile/level/base format/coding mode); the class of the "
+        "first failing check is compared with Model/SeqHeaderAccept.v header_check on the live tables.")
+    ctx.trusted.append("acceptance model: the enum VALUES color_4_2_2/color_4_2_0/pictures_are_fields are literals of "
+                       "Model/SeqHeaderAccept.v (checked against vc2_data_tables on every run); the stream-level checks "
+                       "(repeated header byte-identical, data-unit sequence of the level, major_version minimal) are outside it")
+
+
+def replay_accept(ctx, data):
+    I = impl()
+    spec = data["input"]
+    print("replaying (acceptance)", data.get("key"), spec)
+    cf = make_cf(I, spec)
+    headers = list(I.esh.iter_sequence_headers(cf))
+    print("%d headers enumerated" % len(headers))
+    idxs = range(len(headers)) if spec.get("header_index") is None else [spec["header_index"]]
+    bad = 0
+    for i in idxs:
+        case, verdict, exc, major, minor = accept_one(I, headers[i], spec.get("mutation"), spec.get("force_major"))
+        crash = verdict.startswith("crash:")
+        plain = not spec.get("mutation") and not spec.get("force_major")
+        fails = crash or (plain and format_valid(spec["vp"], spec["pcm"]) and verdict != "accept")
+        if fails or len(idxs) == 1:
+            print("header #%d (major_version %d): %s %s" % (i, major, verdict, str(exc).split("\n")[0] if exc else ""))
+        bad += bool(fails)
+    print("property violated on this input:", bool(bad))
+    return 1 if bad else 0
